@@ -752,6 +752,14 @@ func GenFocusWorld(r *hk.Rand, b *B, focus string) {
 				date++
 				b.Claim(pn, "set", "camliNodeType", nodeTypes[r.Intn(2)], date)
 			}
+			if r.Chance(25) {
+				// an edge with a history: linked, unlinked, linked again through another edge attribute
+				tgt := pns[r.Intn(len(pns))]
+				b.Claim(pn, "add", "camliMember", tgt, date+1)
+				b.Claim(pn, "del", "camliMember", r.Pick([]string{tgt, ""}), date+2)
+				b.Claim(pn, r.Pick([]string{"set", "add"}), r.Pick([]string{"camliPath:x", "camliMember"}), tgt, date+3)
+				date += 3
+			}
 			_ = i
 		}
 	case "dirs":
